@@ -101,6 +101,17 @@ SHAPES = {
     "hidden parent type": {"src/t.f90": "module tm\n type, private :: hid\n end type hid\n type, extends(hid), public :: shown\n end type shown\n type(shown) :: v\ncontains\n"
                                         " subroutine pub()\n  call priv()\n end subroutine pub\n subroutine priv()\n end subroutine priv\nend module tm\n"},
     "kitchen sink": KS,
+    "constructors local types and file links": {
+        "src/geo.f90": ("module geo\n  !! module doc, see [[geo.f90(file)]] and [[helper]]\n  implicit none\n  private\n  public :: circle, helper, host, disc\n  type :: circle\n    !! circle doc\n    real :: r\n  end type circle\n"
+                        "  interface circle\n    !! constructor doc\n    module procedure new_circle\n  end interface circle\n"
+                        "  type :: base_t\n    !! hidden base\n    integer :: n\n  contains\n    procedure :: show\n  end type base_t\n  type, extends(base_t) :: disc\n    !! disc doc\n  end type disc\n"
+                        "  interface\n    module function twice(n) result(r)\n      !! interface doc\n      integer, intent(in) :: n\n      integer :: r\n    end function twice\n  end interface\n  public :: twice\n"
+                        "contains\n  function new_circle(r) result(c)\n    !! new doc\n    real, intent(in) :: r\n    type(circle) :: c\n    c%r = r\n  end function new_circle\n"
+                        "  subroutine show(self)\n    !! show doc\n    class(base_t) :: self\n  end subroutine show\n"
+                        "  subroutine host()\n    !! host doc\n    type :: loc\n      !! local type doc, see [[geo]] and [[helper]]\n      integer :: i\n    end type loc\n    type(loc) :: x\n  end subroutine host\n"
+                        "  subroutine helper()\n    !! helper doc\n  end subroutine helper\nend module geo\n"
+                        "submodule (geo) geo_impl\ncontains\n  module procedure twice\n    !! implementation doc\n    r = 2 * n\n  end procedure twice\nend submodule geo_impl\n"),
+    },
 }
 OPTIONS = [
     "graph: false\nsearch: false\n",
@@ -124,7 +135,34 @@ def site_problems(files, options):
         out = os.path.join(pd, "doc")
         pr, n, npages = site.walk_links(out)
         sp, ns = site.search_index_links(out)
-        return sorted(set(pr + sp)), n + ns
+        # a relocatable site does not mention where it was built (generated pages only: the copied sources and the search index of their text aside)
+        leak = []
+        for d, _, ff in os.walk(out):
+            for name in ff:
+                if name.endswith(".html"):
+                    if os.path.realpath(pd) in open(os.path.join(d, name), encoding="utf-8", errors="replace").read():
+                        leak.append(f"{os.path.relpath(os.path.join(d, name), out)}: the page text holds the absolute path of the build directory")
+        return sorted(set(pr + sp + leak)), n + ns
+
+
+def dotdot_output():
+    """the project file lives in docs/ and names its directories through '..' (src_dir: ../src, output_dir: ../site): the site must be as relocatable as any other"""
+    import os
+    from bounded import site
+    files = dict(KS)
+    meta = "src_dir: ../src\noutput_dir: ../site\ngraph: false\nsearch: true\n"
+    with site.site(files, meta, name="docs/proj.md") as (pd, status):
+        if not status.startswith("ok"):
+            return {"confirmed": True, "input": {"files": files, "project_file": "docs/proj.md", "options": meta}, "actual": status[:400], "expected": "FORD runs", "how": "full run"}
+        out = os.path.join(pd, "site")
+        pr, n, npages = site.walk_links(out)
+        sp, ns = site.search_index_links(out)
+        bad = sorted(set(pr + sp))
+        if bad or not npages:
+            return {"confirmed": True, "input": {"files": files, "project_file": "docs/proj.md", "options": meta}, "actual": bad[:5] or "no page written", "links_checked": n,
+                    "expected": "every internal link is relative and leads to a written file",
+                    "how": "real end-to-end run with the project file in docs/ and output_dir: ../site; every HTML page parsed"}
+    return None
 
 
 def site_search(shape_names=None, options=None):
